@@ -189,8 +189,96 @@ func taintSinks(c *core.Ctx) []*Sink {
 			}
 		})
 	}
+	// S1b: what GetSafeDetails hands out (the per-layer payload)
+	if sdp := p.Named("errbase", "SafeDetailPayload"); sdp != nil {
+		for _, fn := range p.HandFuncs() {
+			n := 0
+			sx.EachInstr(fn, func(in ssa.Instruction) {
+				st, ok := in.(*ssa.Store)
+				if !ok {
+					return
+				}
+				fa, ok := st.Addr.(*ssa.FieldAddr)
+				if !ok || !types.Identical(sx.Deref(fa.X.Type()), sdp) {
+					return
+				}
+				n++
+				out = append(out, &Sink{Class: "S1", Name: fmt.Sprintf("%s: SafeDetailPayload.%s = … #%d", load.FnName(fn), sx.FieldOf(fa).Name(), n), Pos: st.Pos(), Val: st.Val, Mode: "safe", Fn: fn})
+			})
+		}
+	}
+	// S5: the Sentry report
+	if pk := p.Pkg("report"); pk != nil {
+		for _, fn := range p.HandFuncs() {
+			if load.FnPkg(fn) != pk.Types || fn.Name() == "ReportError" || fn.Name() == "PrintStackTrace" {
+				continue
+			}
+			n := 0
+			add := func(what string, pos token.Pos, v ssa.Value) {
+				if v == nil {
+					return
+				}
+				n++
+				out = append(out, &Sink{Class: "S5", Name: fmt.Sprintf("%s: %s #%d", load.FnName(fn), what, n), Pos: pos, Val: v, Mode: "s5:safe", Fn: fn})
+			}
+			sx.EachInstrDeep(fn, func(f *ssa.Function, in ssa.Instruction) {
+				switch x := in.(type) {
+				case *ssa.Call:
+					callee := sx.Callee(x)
+					if callee == nil {
+						return
+					}
+					args := x.Call.Args
+					pkp := ""
+					if q := load.FnPkg(callee); q != nil {
+						pkp = q.Path()
+					}
+					switch {
+					case (pkp == "strings" || pkp == "bytes") && callee.Signature.Recv() != nil && strings.HasPrefix(callee.Name(), "Write") && len(args) == 2:
+						add("write into "+describeVal(args[0]), x.Pos(), args[1])
+					case pkp == "fmt" && (callee.Name() == "Fprintf" || callee.Name() == "Fprint" || callee.Name() == "Fprintln"):
+						for _, a := range args[1:] {
+							if elems, ok := varargsVals(a); ok {
+								for _, el := range elems {
+									add("fmt."+callee.Name()+" into a report buffer", x.Pos(), el)
+								}
+							} else {
+								add("fmt."+callee.Name()+" into a report buffer", x.Pos(), a)
+							}
+						}
+					}
+				case *ssa.Store:
+					if fa, ok := x.Addr.(*ssa.FieldAddr); ok {
+						owner := sx.NamedOf(fa.X.Type())
+						if owner != nil && owner.Obj().Pkg() != nil && strings.Contains(owner.Obj().Pkg().Path(), "sentry-go") {
+							add("sentry."+owner.Obj().Name()+"."+sx.FieldOf(fa).Name()+" = …", x.Pos(), x.Val)
+						}
+					}
+				case *ssa.MapUpdate:
+					add("extras map value", x.Pos(), x.Value)
+				}
+			})
+		}
+	}
 	c.Cache["taintsinks"] = out
 	return out
+}
+
+func varargsVals(v ssa.Value) ([]ssa.Value, bool) {
+	if _, ok := v.(*ssa.Slice); !ok {
+		return nil, false
+	}
+	els := varargs(v)
+	if els == nil {
+		return nil, false
+	}
+	var out []ssa.Value
+	for _, e := range els {
+		if e != nil {
+			out = append(out, e)
+		}
+	}
+	return out, true
 }
 
 // ---------------------------------------------------------------------------
@@ -233,13 +321,18 @@ var contractSafeErrText = map[string]string{
 }
 
 type classCtx struct {
-	c    *core.Ctx
-	busy map[string]bool
+	c            *core.Ctx
+	busy         map[string]bool
+	localBuffers bool // S5: local strings.Builder contents are checked at their write sites
 }
 
 // safeOrigin decides whether an origin is acceptable for a sink of the given mode.
 func safeOrigin(c *core.Ctx, o *origin.Origin, mode string) (bool, string) {
 	cc := &classCtx{c: c, busy: map[string]bool{}}
+	if strings.HasPrefix(mode, "s5:") {
+		cc.localBuffers = true
+		mode = strings.TrimPrefix(mode, "s5:")
+	}
 	return cc.safe(o, mode)
 }
 
@@ -253,6 +346,25 @@ func (cc *classCtx) all(os []*origin.Origin, mode string) (bool, string) {
 }
 
 func (cc *classCtx) safe(o *origin.Origin, mode string) (bool, string) {
+	if mode == "redactable" {
+		// a plain string may be *converted* to RedactableString only if it was
+		// built as one (its markers are then well-formed): safe-but-plain strings
+		// may contain marker runes
+		switch o.Kind {
+		case origin.Redactable, origin.Sanitized, origin.Const, origin.Fresh, origin.Wire, origin.APIParam:
+		default:
+			return false, "a plain string of origin " + o.Key() + " is converted to a redactable string without going through redact.Sprint*/Safe (markers it contains would not be escaped)"
+		}
+		if o.Kind == origin.APIParam {
+			if o.Fn != nil && o.Param < len(o.Fn.Params) && isRedactableStringType(o.Fn.Params[o.Param].Type()) && len(o.Sub) == 0 {
+				return true, "the caller passes a redact.RedactableString: redactable by type"
+			}
+			return false, "the plain string parameter " + o.Desc + " is converted to a redactable string without escaping: marker runes in it break well-formedness (and it would be printed unredacted)"
+		}
+		if o.Kind == origin.Wire && (strings.HasPrefix(o.Slot, "PB:") || o.Slot == "DETAILS") {
+			return false, "a reportable string from the wire (" + o.Key() + ") is converted to a redactable string: it is safe but not marker-escaped"
+		}
+	}
 	switch o.Kind {
 	case origin.Const, origin.Numeric, origin.TypeName, origin.Stack, origin.Sanitized, origin.SafeContract, origin.EncDetails, origin.Fresh:
 		return true, ""
@@ -283,6 +395,9 @@ func (cc *classCtx) safe(o *origin.Origin, mode string) (bool, string) {
 		}
 		return false, "API input " + o.Desc + " is not declared safe by the library's contract"
 	case origin.ForeignField:
+		if cc.localBuffers && strings.Contains(o.Desc, "sentry-go.") {
+			return true, "field of the sentry event under construction: every store the module makes into it is itself an S5 sink"
+		}
 		k := strings.TrimPrefix(o.Desc, "")
 		if why, ok := contractSafeForeignFields[k]; ok {
 			return true, why
@@ -303,6 +418,9 @@ func (cc *classCtx) safe(o *origin.Origin, mode string) (bool, string) {
 	case origin.Unknown:
 		if why, ok := contractSafeCalls[o.Desc]; ok {
 			return true, why
+		}
+		if cc.localBuffers && strings.HasPrefix(o.Desc, "buffer content ") {
+			return true, "content of a local builder of the report function: every write into it is itself an S5 sink"
 		}
 		return false, "unknown origin: " + o.Desc
 	case origin.EncMsg:
@@ -489,6 +607,7 @@ func runTaint(c *core.Ctx) {
 	c.Min("S1 SafeDetails() return sites", counts["S1"], 13)
 	c.Min("S2 encoder safe-details return sites", counts["S2"], 20)
 	c.Min("S3 safe-declaration sites", counts["S3"], 80)
+	c.Min("S5 Sentry report write sites", counts["S5"], 30)
 }
 
 func trunc200(s string) string {
